@@ -212,6 +212,8 @@ func checkC19(c *Ctx) {
 				// watcher creation succeeded
 			case cnd.Op == "binop" && strings.Contains(str, "len("):
 				// index loop over the directory list
+			case a.Instr != nil && a.Instr.Block().Comment == "rangeindex.loop":
+				// the same loop over a fixed-size array: its bound is a constant
 			default:
 				others = append(others, "extra condition "+a.String())
 			}
